@@ -258,4 +258,88 @@ theorem map_mem (s : Spec α) (v : α) : (s.map e.f).mem (e.f v) ↔ s.mem v := 
     · rintro ⟨a, ha, hm⟩; exact ⟨_, ⟨a, ha, rfl⟩, (Range.map_mem e a v).2 hm⟩
 
 end Spec
+/-! ### "every bound satisfies `P`" is preserved by the operators
+
+A specifier all of whose bounds satisfy `P` is the image of a specifier over the subtype
+`{v // P v}` under the inclusion, which is an order embedding; the operators commute with it. -/
+
+instance subLinPre {α : Type} [LinPre α] (P : α → Prop) : LinPre {v : α // P v} where
+  le a b := LinPre.le a.1 b.1
+  decLe := fun a b => inferInstanceAs (Decidable (LinPre.le a.1 b.1))
+  le_refl a := LinPre.le_refl a.1
+  le_trans a b c := LinPre.le_trans a.1 b.1 c.1
+  le_total a b := LinPre.le_total a.1 b.1
+
+def subEmb {α : Type} [LinPre α] (P : α → Prop) : Emb {v : α // P v} α where
+  f := Subtype.val
+  le_iff := fun _ _ => Iff.rfl
+
+namespace Spec
+variable {α : Type} [LinPre α]
+
+/-- every bound of the specifier satisfies `P` -/
+def BoundsIn (P : α → Prop) (s : Spec α) : Prop := ∃ s' : Spec {v : α // P v}, s'.map (subEmb P).f = s
+
+theorem and_boundsIn (P : α → Prop) (a b : Spec α) (ha : BoundsIn P a) (hb : BoundsIn P b) : BoundsIn P (a.and b) := by
+  obtain ⟨a', rfl⟩ := ha
+  obtain ⟨b', rfl⟩ := hb
+  exact ⟨a'.and b', (map_and (subEmb P) a' b').symm⟩
+
+theorem or_boundsIn (P : α → Prop) (a b r : Spec α) (ha : BoundsIn P a) (hb : BoundsIn P b) (h : a.or b = some r) :
+    BoundsIn P r := by
+  obtain ⟨a', rfl⟩ := ha
+  obtain ⟨b', rfl⟩ := hb
+  rw [map_or] at h
+  cases hr : a'.or b' with
+  | none => rw [hr] at h; cases h
+  | some r' =>
+    rw [hr] at h
+    simp only [Option.map_some, Option.some.injEq] at h
+    exact ⟨r', h⟩
+
+theorem boundsIn_empty (P : α → Prop) : BoundsIn P (.empty : Spec α) := ⟨.empty, rfl⟩
+theorem boundsIn_any (P : α → Prop) : BoundsIn P (.any : Spec α) := ⟨.any, rfl⟩
+
+/-- what it says about a range -/
+theorem boundsIn_range (P : α → Prop) (r : Range α) (h : BoundsIn P (.range r)) :
+    (∀ m, r.min = some m → P m) ∧ (∀ m, r.max = some m → P m) := by
+  obtain ⟨s', hs⟩ := h
+  cases s' with
+  | range r' =>
+    simp only [map_range, Spec.range.injEq] at hs
+    subst hs
+    constructor
+    · intro m hm
+      simp only [Range.map, Option.map_eq_some_iff] at hm
+      obtain ⟨x, _, rfl⟩ := hm; exact x.2
+    · intro m hm
+      simp only [Range.map, Option.map_eq_some_iff] at hm
+      obtain ⟨x, _, rfl⟩ := hm; exact x.2
+  | empty => simp at hs
+  | any => simp at hs
+  | union _ _ => simp at hs
+
+theorem boundsIn_union (P : α → Prop) (rs : List (Range α)) (t : Option (Clause α)) (h : BoundsIn P (.union rs t)) :
+    ∀ r ∈ rs, (∀ m, r.min = some m → P m) ∧ (∀ m, r.max = some m → P m) := by
+  obtain ⟨s', hs⟩ := h
+  cases s' with
+  | union rs' t' =>
+    simp only [map_union, Spec.union.injEq] at hs
+    obtain ⟨hs, _⟩ := hs
+    subst hs
+    intro r hr
+    simp only [List.mem_map] at hr
+    obtain ⟨r', _, rfl⟩ := hr
+    constructor
+    · intro m hm
+      simp only [Range.map, Option.map_eq_some_iff] at hm
+      obtain ⟨x, _, rfl⟩ := hm; exact x.2
+    · intro m hm
+      simp only [Range.map, Option.map_eq_some_iff] at hm
+      obtain ⟨x, _, rfl⟩ := hm; exact x.2
+  | empty => simp at hs
+  | any => simp at hs
+  | range _ => simp at hs
+
+end Spec
 end DepLogic
